@@ -456,9 +456,9 @@ pub fn run(args: &Args) -> i32 {
     }
     let budget = Budget::for_tier(args.tier, 150.0, 1200.0);
     let jobs = args.jobs.max(1);
-    let n_viol = args.by_tier(5000u64, 60_000);
-    let n_honest = args.by_tier(1500u64, 10_000);
-    let n_ops = args.by_tier(16_000u64, 150_000);
+    let n_viol = args.by_tier(5000u64, 180_000);
+    let n_honest = args.by_tier(1500u64, 30_000);
+    let n_ops = args.by_tier(16_000u64, 450_000);
     let n_scripted = args.by_tier(300u64, 2_000);
     let b = budget.slice(0.4);
     run_shards(&mut rep, jobs, jobs, |shard, rep| {
